@@ -14,6 +14,7 @@ import (
 	"encoding/binary"
 	"fmt"
 	"math"
+	"os"
 	"path/filepath"
 	"runtime/debug"
 	"sort"
@@ -1182,7 +1183,10 @@ func withBigSlot(fn func()) {
 	dir := filepath.Dir(evid.WorkDir())
 	sh, _ := evid.Shard()
 	p := filepath.Join(dir, fmt.Sprintf("c14-bigslot-%d", sh%3))
-	fd, err := syscall.Open(p, syscall.O_CREAT|syscall.O_RDWR, 0o644)
+	fd, err := -1, error(syscall.ENOENT)
+	if os.Getenv("VERIF_WORK") != "" { // under the driver: the parent of the shard's work dir is per run and removed afterwards
+		fd, err = syscall.Open(p, syscall.O_CREAT|syscall.O_RDWR, 0o644)
+	}
 	if err == nil {
 		syscall.Flock(fd, syscall.LOCK_EX)
 		defer func() {
